@@ -332,4 +332,116 @@ Section Theorems.
         intros t2 s2 payload off s7 Hw _ _. rewrite (window_unsynced cx s ip r (or_intror Est)) in Hw.
         inversion Hw; subst. rewrite payload_nil. discriminate.
   Qed.
+
+  (* ------------------------------------------------------------------------------------ *)
+  (* facts used by the C01 composition (not part of the pinned statements)                  *)
+  (* ------------------------------------------------------------------------------------ *)
+
+  Lemma ginv_have g s :
+    ginv g s -> g_irs g <> None -> forall k, 0 <= k < rcv_count g s -> g_have g k.
+  Proof.
+    unfold TcpRecvTrace.ginv, rcv_count. destruct (g_irs g); [|congruence].
+    intros (((_ & _ & _ & _ & _ & _ & _ & Hh & _) & _) & _) _. exact Hh.
+  Qed.
+
+  (* a new epoch starts only by a SYN, and irs is that SYN's sequence number *)
+  Lemma sync_only_by_syn cx g s ip r s' out tags :
+    ginv g s -> ev_ok g s (EvSegment ip r) -> tcp_step cx s (EvSegment ip r) = Ok (s', out, tags) ->
+    g_irs g = None -> g_irs (ghost_step cx g s (EvSegment ip r) s' out) <> None ->
+    r_control r = CSyn /\ g_irs (ghost_step cx g s (EvSegment ip r) s' out) = Some (r_seq_number r) /\
+    g_consumed (ghost_step cx g s (EvSegment ip r) s' out) = 0.
+  Proof.
+    intros Hinv (Hsq & _) Hs Hg Hne. cbn [ghost_step] in *. rewrite Hg in *.
+    destruct (is_state s' SynReceived || is_state s' Established) eqn:Et; [|congruence].
+    cbn [g_irs g_consumed]. split; [|split; reflexivity].
+    cbn [tcp_step] in Hs. apply obind_ok_inv in Hs. destruct Hs as (((s1 & rep) & tg) & Hi & Hs).
+    inversion Hs; subst; clear Hs.
+    unfold TcpRecvTrace.ginv in Hinv. rewrite Hg in Hinv. destruct Hinv as (Hu & _).
+    assert (Hcontra : match s_state s' with SynReceived | Established => False | _ => True end -> False).
+    { intros Hm. unfold is_state in Et. destruct (s_state s'); try contradiction; discriminate. }
+    destruct (ingress_cases cx s ip r s' rep tags Hi) as [(-> & _) | Hp].
+    - exfalso. apply Hcontra. destruct Hu as (_ & _ & _ & _ & _ & _ & Hst).
+      destruct (s_state s); try contradiction; exact I.
+    - destruct (process_unsynced (S 0%nat) (F 0%nat) (F_nonneg _) s cx ip r s' rep tags Hu Hsq Hp)
+        as (_ & _ & _ & [(_ & Hst) | (Hc & _)]); [exfalso; exact (Hcontra Hst) | exact Hc].
+  Qed.
+
+  Lemma l_len_zero_nil (l : list Z) : l_len l = 0 -> l = [].
+  Proof. rewrite l_len_spec. destruct l; [reflexivity|]. cbn [length]. lia. Qed.
+
+  (* a segment un-synchronises the socket (RST in SYN-RECEIVED of a listener) only before anything
+     was delivered *)
+  Lemma segment_unsync_empty cx g s ip r s' out tags :
+    ginv g s -> ev_ok g s (EvSegment ip r) -> tcp_step cx s (EvSegment ip r) = Ok (s', out, tags) ->
+    g_irs g <> None -> g_irs (ghost_step cx g s (EvSegment ip r) s' out) = None ->
+    g_consumed g = 0 /\ g_delivered g = [].
+  Proof.
+    intros Hinv (Hsq & Hseg) Hs Hg Hn. cbn [ghost_step] in Hn.
+    unfold TcpRecvTrace.ginv in Hinv. destruct (g_irs g) as [irs|] eqn:Eg; [|congruence].
+    destruct Hinv as (Hsy & (Hdl & _)).
+    destruct (is_state s' Listen) eqn:El; [|cbn [g_irs] in Hn; discriminate].
+    apply is_state_true in El.
+    cbn [tcp_step] in Hs. apply obind_ok_inv in Hs. destruct Hs as (((s1 & rep) & tg) & Hi & Hs).
+    inversion Hs; subst; clear Hs.
+    assert (Hc0 : g_consumed g = 0).
+    { destruct (ingress_cases cx s ip r s' rep tags Hi) as [(-> & _) | Hp].
+      - exfalso. destruct Hsy as (_ & _ & _ & _ & Hst). unfold st_ok in Hst. rewrite El in Hst. exact Hst.
+      - destruct (process_synced _ _ _ _ _ _ _ _ _ _ _ _ Hsy Hseg Hp) as (_ & [Hs' | (_ & _ & _ & Hc)] & _).
+        + exfalso. destruct Hs' as (_ & _ & _ & _ & Hst). unfold st_ok in Hst. rewrite El in Hst. exact Hst.
+        + exact Hc. }
+    split; [exact Hc0|]. apply l_len_zero_nil. rewrite Hdl. exact Hc0.
+  Qed.
+
+  (* rx_fin_received becomes true only by a segment carrying FIN *)
+  Lemma fin_only_from_fin cx g s ev s' out tags :
+    ginv g s -> ev_ok g s ev -> tcp_step cx s ev = Ok (s', out, tags) ->
+    s_rx_fin_received s' = true ->
+    s_rx_fin_received s = true \/ exists ip r, ev = EvSegment ip r /\ r_control r = CFin.
+  Proof.
+    intros Hinv Hev H Hf. destruct (ginv_wf S F _ _ Hinv) as (Hwf & Hcap & Hsh).
+    assert (Hun : forall s0, rx_unsynced s0 -> s_rx_fin_received s0 = true -> False).
+    { intros s0 (_ & _ & _ & _ & E & _) E'. congruence. }
+    assert (Hv : forall s0, rxv_eq s0 s -> s_rx_fin_received s0 = true -> s_rx_fin_received s = true).
+    { intros s0 (_ & _ & E & _) E'. congruence. }
+    destruct ev; cbn [tcp_step] in H.
+    - destruct (tcp_listen s ep) as [s1|e|] eqn:Hl; [| |discriminate]; inversion H; subst; clear H;
+        [|left; exact Hf].
+      destruct (listen_unsynced s ep s' Hwf Hcap Hl) as [(-> & _) | Hu]; [left; exact Hf|].
+      exfalso. exact (Hun _ Hu Hf).
+    - destruct (tcp_connect cx s remote_addr remote_port local) as [s1|e|] eqn:Hc; [| |discriminate];
+        inversion H; subst; clear H; [|left; exact Hf].
+      exfalso. exact (Hun _ (connect_unsynced _ _ _ _ _ _ Hwf Hcap Hc) Hf).
+    - inversion H; subst. left. exact (Hv _ (close_view s) Hf).
+    - inversion H; subst. left. exact (Hv _ (proj1 (abort_view s)) Hf).
+    - destruct (tcp_send_slice s data) as [(s1, n)|e|] eqn:Hs; [| |discriminate]; inversion H; subst; clear H;
+        [|left; exact Hf].
+      left. exact (Hv _ (proj1 (send_slice_frame _ _ _ _ Hs)) Hf).
+    - destruct (tcp_recv_slice s n) as [(s1, b)|e|] eqn:Hr; [| |discriminate]; inversion H; subst; clear H;
+        [|left; exact Hf].
+      left. unfold tcp_recv_slice in Hr. destruct (tcp_recv_error_check s) as [[]|e|]; cbn [obind] in Hr; try discriminate.
+      destruct (rb_dequeue_slice (s_rx_buffer s) n) as (rx', b'). inversion Hr; subst. rproj. exact Hf.
+    - destruct (tcp_peek s n) as [l|e|]; [| |discriminate]; inversion H; subst; left; exact Hf.
+    - destruct (tcp_peek_slice s n) as [l|e|]; [| |discriminate]; inversion H; subst; left; exact Hf.
+    - inversion H; subst. left. unfold tcp_set_timeout in Hf. rproj. exact Hf.
+    - inversion H; subst. left. exact (Hv _ (proj1 (set_keep_alive_frame s d)) Hf).
+    - inversion H; subst. left. unfold tcp_set_ack_delay in Hf. rproj. exact Hf.
+    - inversion H; subst. left. unfold tcp_set_nagle_enabled in Hf. rproj. exact Hf.
+    - apply obind_ok_inv in H. destruct H as (s1 & Hh & H). inversion H; subst; clear H.
+      left. exact (Hv _ (proj1 (set_hop_limit_frame _ _ _ Hh)) Hf).
+    - apply obind_ok_inv in H. destruct H as (((s1 & rep) & tg) & Hi & H). inversion H; subst; clear H.
+      destruct Hev as (Hsq & Hseg).
+      destruct (ingress_cases cx s ip r s' rep tags Hi) as [(-> & _) | Hp]; [left; exact Hf|].
+      unfold TcpRecvTrace.ginv in Hinv. destruct (g_irs g) as [irs|].
+      + destruct Hinv as (Hsy & _).
+        destruct (process_synced _ _ _ _ _ _ _ _ _ _ _ _ Hsy Hseg Hp) as (_ & _ & _ & Hfin).
+        destruct (Hfin Hf) as [Hl | Hr]; [left; exact Hl | right; exists ip, r; split; [reflexivity | exact Hr]].
+      + destruct Hinv as (Hu & _).
+        destruct (process_unsynced (S 0%nat) (F 0%nat) (F_nonneg _) s cx ip r s' rep tags Hu Hsq Hp)
+          as (_ & _ & Hff & _). congruence.
+    - apply obind_ok_inv in H. destruct H as (((s1 & res) & tg) & Hd & H). inversion H; subst; clear H.
+      destruct (dispatch_spec cx s emit_ok s' res tags Hwf Hsh Hd)
+        as [(_ & -> & _) | (_ & (_ & _ & E & _) & _)].
+      + exfalso. exact (Hun _ (reset_unsynced s Hwf Hcap) Hf).
+      + left. congruence.
+  Qed.
 End Theorems.
